@@ -1,4 +1,5 @@
 import GcArena.Proofs.LogRun
+import GcArena.Proofs.DebtMono
 /-!
 # C10 — Metrics are truthful (property theorems)
 
@@ -53,9 +54,90 @@ theorem count_zero_after_drop (n : Nat) (ops : List Op) (halive : ((Arena.new n)
   rw [hcb]
   exact (dropAll_spec hi.cinv (linv_run n ops)).2.2.1
 
+/-! ### The debt is never decreased by allocation, mutation or write barriers
+
+Operations are classified in Proofs/DebtMono.lean:
+* `Op.isKnob`: `set_pacing`, `adjust_debt` — explicit adjustment (`adjust_exact` above);
+* `Op.isForwardLike`: forward barriers (`Op.barrier (.fb ..)`, `(.fbw ..)`) and
+  `Finalization::resurrect` — they *perform marking work themselves* (`Context::trace` /
+  `trace_weak`), for which `mark_factor` is credited: collection work in the property's sense;
+* every other mutator operation (`Op.isMutator`: everything but collection calls and dropping the
+  arena) is *plain*: `plain_ops` lists them. -/
+
+/-- The plain mutator operations: callbacks, allocation, reads, `downgrade`, `upgrade`, the
+    `is_dropped` / `is_dead` queries, backward (write) barriers — strong and weak —, every store
+    path (`Gc::write`-style, raw-after-barrier, store-then-barrier) and root stores. -/
+theorem plain_ops (op : Op) :
+    (op.isMutator = true ∧ op.isKnob = false ∧ op.isForwardLike = false) ↔
+    (match op with
+     | .enter _ | .leave | .alloc _ _ | .readRoot _ | .read _ _ | .downgrade _ | .upgrade _
+     | .isDropped _ | .isDead _ | .barrier (.bb _ _) | .barrier (.bbw _ _) | .store _ _ _ _
+     | .rootStore _ _ => True
+     | _ => False) := by
+  cases op with
+  | barrier b => cases b <;> simp [Op.isMutator, Op.isKnob, Op.isForwardLike]
+  | _ => simp [Op.isMutator, Op.isKnob, Op.isForwardLike]
+
+/-- **Never decreased by allocation, mutation or write barriers.**  For every arena state
+    whatsoever (no invariant needed), every plain mutator operation leaves the reported debt
+    equal or larger — including allocation into an empty arena, every corner of
+    `allocation_debt` (`total_gcs = 0`, `cycle_debits ≤ 0`, clamping at zero) and write barriers on
+    objects whose type needs no tracing (`mark_gc_untraced` saturates: repair of defect D1).
+    `trace_factor` must not be negative: a write barrier that re-grays a black object takes one
+    `traced` credit back, which *raises* the debt by `trace_factor`; a negative factor would turn
+    that into a payment. -/
+theorem debt_never_decreased (a : Arena) (op : Op) (hop : op.isMutator = true) (hk : op.isKnob = false)
+    (hf : op.isForwardLike = false) (htf : 0 ≤ a.ctx.metrics.pacing.traceFactor) :
+    a.ctx.metrics.allocationDebt ≤ (a.step op).1.ctx.metrics.allocationDebt :=
+  (step_plainMet a op hop hk hf).debt htf
+
+/-- What a plain mutator operation can do to the metrics at all: nothing, count one allocation
+    (only `Op.alloc`), or take back one `traced` (a write barrier re-graying a black object). -/
+theorem plain_metrics (a : Arena) (op : Op) (hop : op.isMutator = true) (hk : op.isKnob = false)
+    (hf : op.isForwardLike = false) :
+    (a.step op).1.ctx.metrics = a.ctx.metrics ∨
+    (op.isAlloc = true ∧ (a.step op).1.ctx.metrics = a.ctx.metrics.markGcAllocated) ∨
+    (a.step op).1.ctx.metrics = a.ctx.metrics.markGcUntraced :=
+  step_plainMet a op hop hk hf
+
+/-- **Only collection work pays debt**: a forward barrier or `resurrect` marks at most one object
+    (the one traced pointer), so it lowers the reported debt by at most `mark_factor` — the
+    marking work it performed itself — and never raises it. -/
+theorem debt_forward_work (a : Arena) (op : Op) (hf : op.isForwardLike = true)
+    (hmf : 0 ≤ a.ctx.metrics.pacing.markFactor) :
+    ((a.step op).1.ctx.metrics = a.ctx.metrics ∨
+      (a.step op).1.ctx.metrics = a.ctx.metrics.markGcMarked) ∧
+    a.ctx.metrics.allocationDebt - a.ctx.metrics.pacing.markFactor
+      ≤ (a.step op).1.ctx.metrics.allocationDebt ∧
+    (a.step op).1.ctx.metrics.allocationDebt ≤ a.ctx.metrics.allocationDebt :=
+  ⟨step_fwdMet a op hf, (step_fwdMet a op hf).debt hmf⟩
+
 /-- Non-vacuity: a concrete metrics state with positive debt. -/
 example : (0 : Rat) < ({ Metrics.new with totalGcs := 3, allocated := 3 } : Metrics).allocationDebt := by
   unfold Metrics.allocationDebt Metrics.new Metrics.cycleDebits Metrics.cycleCredits Pacing.default
+  grind
+
+/-- The hypothesis `0 ≤ trace_factor` of `debt_never_decreased` is needed: with a negative factor
+    the `traced` credit a write barrier takes back lowers the debt (here 11 → 10). -/
+example :
+    let m : Metrics := { Metrics.new with pacing := { Pacing.default with traceFactor := -1 },
+                                          totalGcs := 10, allocated := 10, traced := 1 }
+    m.markGcUntraced.allocationDebt < m.allocationDebt := by
+  simp only
+  unfold Metrics.allocationDebt Metrics.markGcUntraced Metrics.new Metrics.cycleDebits
+    Metrics.cycleCredits Pacing.default
+  simp only
+  grind
+
+/-- Non-vacuity of `debt_forward_work`: marking one object under `Pacing::DEFAULT` pays exactly
+    `mark_factor` (3 → 2.9). -/
+example :
+    let m : Metrics := { Metrics.new with totalGcs := 3, allocated := 3 }
+    m.markGcMarked.allocationDebt = m.allocationDebt - m.pacing.markFactor := by
+  simp only
+  unfold Metrics.allocationDebt Metrics.markGcMarked Metrics.new Metrics.cycleDebits
+    Metrics.cycleCredits Pacing.default
+  simp only
   grind
 
 end GcArena.C10
